@@ -6,6 +6,7 @@ Model: Model/Level2.lean (`level1` = getBH_level1's frame change, `leafB`, `sumT
 The local field function `F` is arbitrary: the theorems hold for every source class.
 -/
 import MagpyVerif.Lemmas.Level2Compose
+import MagpyVerif.Lemmas.OctaCarrier
 import Mathlib.Algebra.GroupWithZero.Action.Units
 import Mathlib.Algebra.Ring.Int.Units
 namespace MagpyVerif.C03
@@ -123,5 +124,65 @@ example : ∃ (entries : List (Entry ℤˣ ℤ)) (sensors : List (Sens ℤˣ ℤ
   ⟨[.coll [.leaf ⟨[3, 4], [1, -1], fun x => x + 1⟩, .coll [.leaf ⟨[0], [1], fun x => 2 * x⟩]]],
    [⟨[7, 8], [-1, 1], [0, 1], [2], true⟩],
    by simp [Entry.leaves], by simp [Sens.WF, pixNum], by simp, by simp⟩
+
+
+/-! ### on the carrier the driver computes with (AUDIT X1)
+
+The theorems above are about the model functions at an abstract `Group G`; the driver (and through the
+`level2` stream the real code) is compared with the same functions at `M3 Int` / `V3 Int`, where `⁻¹` is the
+transpose — not a group.  Lemmas/OctaCarrier.lean shows that on the octahedral rotation matrices (`IsOct`:
+orthogonal, determinant 1; the 24 matrices the streams use) the `M3 Int` evaluation IS the evaluation at the
+group `Oct`; so the statements hold for what the driver computes.  `Entry.movedOp` / `Sens.movedOp` are
+`Entry.moved` / `Sens.moved` written with the bare operation classes (`Entry.moved_eq_op`). -/
+section driverCarrier
+
+/-- **C03 end to end on the driver's carrier** (`M3 Int`, `V3 Int`, instances of Model/Basic.lean): if the
+rotation `Q` and every rotation matrix of the sources' and sensors' orientation paths is octahedral, the
+pipeline model evaluated *as the driver evaluates it* returns the same tensor for the moved scene. -/
+theorem covariance_end_to_end_on_driver_carrier (flipX : V3 Int → V3 Int) (Q : M3 Int) (t : V3 Int)
+    (entries : List EntryZ) (sensors : List SensZ)
+    (hQ : IsOct Q) (heo : ∀ e ∈ entries, e.RotsOct) (hso : ∀ k ∈ sensors, k.RotsOct)
+    (he : ∀ e ∈ entries, e.leaves ≠ []) (hs : ∀ k ∈ sensors, k.WF) :
+    tensor flipX (entries.map (Entry.movedOp Q t)) (sensors.map (Sens.movedOp Q t)) =
+      tensor flipX entries sensors := by
+  obtain ⟨es, rfl⟩ := exists_oct_entries entries heo
+  obtain ⟨ks, rfl⟩ := exists_oct_sensors sensors hso
+  obtain ⟨q, rfl⟩ := Oct.exists_toM3_eq hQ
+  have h := covariance_end_to_end flipX q t es ks
+    (fun e h => (Entry.mapG_leaves_ne_nil Oct.toM3 e).mp (he _ (List.mem_map_of_mem h)))
+    (fun k h => (Sens.mapG_WF Oct.toM3 k).mp (hs _ (List.mem_map_of_mem h)))
+  rw [← tensor_at_Oct_eq_at_M3Int, ← tensor_at_Oct_eq_at_M3Int] at h
+  simpa only [List.map_map, Function.comp_def, Entry.moved_toM3, Sens.moved_toM3] using h
+
+/-- **C03 end to end on the driver's carrier, position observers**: the tensor of the moved scene is the
+old one with every vector rotated by the integer matrix `Q` -/
+theorem covariance_positions_end_to_end_on_driver_carrier (flipX : V3 Int → V3 Int) (Q : M3 Int) (t : V3 Int)
+    (entries : List EntryZ) (X : List (V3 Int))
+    (hQ : IsOct Q) (heo : ∀ e ∈ entries, e.RotsOct) (he : ∀ e ∈ entries, e.leaves ≠ []) :
+    tensor flipX (entries.map (Entry.movedOp Q t)) [obsSensorOp (X.map fun x => Q • x + t)] =
+      (tensor flipX entries [obsSensorOp X]).map (List.map (List.map (List.map (Q • ·)))) := by
+  obtain ⟨es, rfl⟩ := exists_oct_entries entries heo
+  obtain ⟨q, rfl⟩ := Oct.exists_toM3_eq hQ
+  have h := covariance_positions_end_to_end flipX q t es X
+    (fun e h => (Entry.mapG_leaves_ne_nil Oct.toM3 e).mp (he _ (List.mem_map_of_mem h)))
+  rw [← tensor_at_Oct_eq_at_M3Int, ← tensor_at_Oct_eq_at_M3Int] at h
+  simpa only [List.map_map, Function.comp_def, Entry.moved_toM3, List.map_cons, List.map_nil,
+    obsSensor_toM3, Oct.coe_smul] using h
+
+-- non-vacuity on driver-style data (`Level2.DriverExample`): a nested entry whose first leaf is rotated by 90°
+-- about z at its second path entry, a left-handed two-step sensor rotated by 90° about z at its first step,
+-- motion = 90° about x then a shift; every hypothesis of `covariance_end_to_end_on_driver_carrier` holds (they are
+-- all decidable conditions on the integer data), so the theorem applies to this `M3 Int` evaluation
+open Level2.DriverExample in
+example (flipX : V3 Int → V3 Int) :
+    tensor flipX (drvEntries.map (Entry.movedOp rotX90 ⟨1, -2, 5⟩)) (drvSensors.map (Sens.movedOp rotX90 ⟨1, -2, 5⟩)) =
+      tensor flipX drvEntries drvSensors :=
+  covariance_end_to_end_on_driver_carrier flipX rotX90 ⟨1, -2, 5⟩ drvEntries drvSensors isOct_rotX90
+    drvEntries_rotsOct drvSensors_rotsOct drvEntries_leaves drvSensors_WF
+-- one value, evaluated as the driver evaluates it: the second path entry of the first leaf (rotated 90° about z)
+open Level2.DriverExample in
+example : level1 (G := M3 Int) (V := V3 Int)
+    ⟨[⟨3, 0, 0⟩, ⟨4, 0, 0⟩], [1, rotZ90], fun x => x + ⟨1, 0, 0⟩⟩ 1 ⟨10, 0, 0⟩ = ⟨6, 1, 0⟩ := by decide
+end driverCarrier
 
 end MagpyVerif.C03
